@@ -90,6 +90,8 @@ class C03(Harness):
             ctx.assume(False)  # an absolute horizon fixed at fit would fall in-sample after the update
         if k == "pipeline-deseason":
             inp["sigma"] = fresh_reals(ctx, "sig", 2)
+            # (origin and shift in a small range: code that looks the season up from the absolute label stays decidable)
+            ctx.assume((inp["s0"] >= -2) & (inp["s0"] <= 3) & (inp["delta"] >= 0) & (inp["delta"] <= 3))
         if k.startswith("reduce"):
             inp["wl"] = choice("wl", 1, 2)
             if inp["wl"] + inp["fh"][-1] > n:
